@@ -50,6 +50,21 @@ def rule_rank_domain(ctx: Ctx) -> None:
 
 def rule_normaliser(ctx: Ctx) -> None:  # noqa: C901
     P = ctx.prog
+    # slice.indices(n) gives (start, stop, step) for range(): re-wrapped in a slice the stop -1 of a negative step ("down to and
+    # including 0") means "up to the last element" - `slice(*s.indices(n))` is NOT s for s = [::-1], [2::-1], [::-2]
+    n_ix = 0
+    for m in P.modules.values():
+        if not (m.name.startswith(SA) or m.name == "pipefunc.map._mapspec"):
+            continue
+        for c in ast.walk(m.tree):
+            if isinstance(c, ast.Call) and isinstance(c.func, ast.Attribute) and c.func.attr == "indices" and len(c.args) == 1:
+                n_ix += 1
+        for c in ast.walk(m.tree):
+            if isinstance(c, ast.Call) and dotted(c.func) == "slice" and len(c.args) == 1 and isinstance(c.args[0], ast.Starred) and isinstance(c.args[0].value, ast.Call) \
+                    and isinstance(c.args[0].value.func, ast.Attribute) and c.args[0].value.func.attr == "indices":
+                ctx.add("2-normaliser", m.name, f"{m.relpath}:{c.lineno}", False, f"`{norm(c)[:60]}` re-wraps slice.indices() in a slice: for a negative step that runs through index 0 the resolved stop is -1, which a slice reads as "
+                        "\"the last element\" - `[::-1]`, `[2::-1]`, `[::-2]` select nothing (the array comes back empty or filled with None) where numpy and the other backends return the reversed data", key=f"slice-of-indices {m.name.rsplit('.', 1)[-1]}")
+    ctx.add("2-normaliser", SA, "", True, f"{n_ix} slice.indices() resolution(s) examined: none is wrapped back into a slice", key="slice-of-indices-scan")
     for cq in KEYED:
         cls = P.cls(cq)
         for mname in ("__getitem__", "dump"):
